@@ -112,15 +112,16 @@ Inductive link_justified (m : mrs) (ids : list str) (reps : list (str * list str
     link_justified m ids reps (nid_of ids i, nid_of ids (fst p), role, post)
 | lj_h i e role tgt c r rest :
     (* the value is the hole of a handle constraint; the target is the first
-       representative of the scope it selects *)
+       representative of the scope it selects - for a quantifier, the member of that
+       scope it binds, if there is one (scopal_target_spec) *)
     In (i, e) (eps m ids) -> In (role, tgt) (ep_arguments None e) ->
     hc_get (m_hcons m) tgt = Some c -> dict_get (snd c) reps = Some (r :: rest) ->
-    link_justified m ids reps (nid_of ids i, nid_of ids r, role, POST_H)
+    link_justified m ids reps (nid_of ids i, nid_of ids (scopal_target m ids e (snd c) r), role, POST_H)
 | lj_heq i e role tgt r rest :
     (* the value is a label; the target is the first representative of that scope *)
     In (i, e) (eps m ids) -> In (role, tgt) (ep_arguments None e) ->
     hc_get (m_hcons m) tgt = None -> dict_get tgt reps = Some (r :: rest) ->
-    link_justified m ids reps (nid_of ids i, nid_of ids r, role, POST_HEQ)
+    link_justified m ids reps (nid_of ids i, nid_of ids (scopal_target m ids e tgt r), role, POST_HEQ)
 | lj_mod lbl f rest s :
     (* MOD/EQ from a later to the first representative of one scope *)
     In (lbl, f :: rest) reps -> In s rest ->
@@ -149,6 +150,23 @@ Proof.
       cbn [snd]. intros l1 H1. apply in_app_or in H1. destruct H1 as [H1|[<-|[]]]; [apply Hacc; exact H1|].
       exists y. split; [apply Hinc; left; reflexivity | reflexivity]. }
   apply G; [intros l0 [] | apply incl_refl].
+Qed.
+
+(* the end of a scopal link: the first representative, or - for a quantifier - a
+   non-quantifier member of the selected scope with the quantifier's own variable *)
+Lemma scopal_target_spec m ids e lbl r :
+  scopal_target m ids e lbl r = r \/
+  (is_quant e = true /\ exists p, In p (eps m ids) /\ fst p = scopal_target m ids e lbl r /\
+     e_label (snd p) = lbl /\ is_quant (snd p) = false /\ e_iv (snd p) = e_iv e).
+Proof.
+  unfold scopal_target. destruct (is_quant e) eqn:Q; [|left; reflexivity].
+  match goal with |- context [find ?f ?l] => destruct (find f l) as [p|] eqn:F end; [|left; reflexivity].
+  right. split; [reflexivity|]. apply find_some in F. destruct F as [Hin Hf].
+  apply andb_prop in Hf. destruct Hf as [Hf Hiv]. apply andb_prop in Hf. destruct Hf as [Hl Hq].
+  exists p. split; [exact Hin|]. split; [reflexivity|]. split; [apply str_eqb_spec; exact Hl|].
+  split; [apply negb_true_iff; exact Hq|].
+  destruct (e_iv (snd p)) as [a|], (e_iv e) as [b|]; try discriminate; [|reflexivity].
+  apply str_eqb_spec in Hiv. subst. reflexivity.
 Qed.
 
 Theorem dmrs_links_justified m d : dmrs_from_mrs m = COk d ->
